@@ -108,3 +108,133 @@ func runPinch(c *hlib.Ctx) {
 			bstr(img.Min(nlo) == nlo && img.Max(nhi) == nhi))
 	}
 }
+
+// runConj: MarchingCubesConj(s, delta, iters, xforms...) must be the mesh of the transformed solid
+// mapped back vertex by vertex through the inverse (theorem marching_cubes_conj is about that solid
+// and that map; the meshing itself is C01/C02).  Evaluated directly on the implementation.
+func runConj(c *hlib.Ctx) {
+	g := &gen{c: c, dim: 3}
+	for i := 0; i < 6; i++ {
+		var xs []*xf
+		for n := c.Rng.Intn(3) + 1; n > 0; n-- {
+			switch c.Rng.Intn(3) {
+			case 0:
+				xs = append(xs, &xf{kind: 'T', v: [3]float64{float64(c.Rng.Intn(5) - 2), 0, float64(c.Rng.Intn(3))}})
+			case 1:
+				xs = append(xs, &xf{kind: 'S', s: g.sign() * g.pow2(1)})
+			default:
+				xs = append(xs, &xf{kind: 'Q', axis: c.Rng.Intn(3), lo: 0.25, hi: 1.25, ratio: 0.5})
+			}
+		}
+		var ts []model3d.Transform
+		desc := ""
+		for _, x := range xs {
+			ts = append(ts, x.build3())
+			desc += x.tokens(3) + " "
+		}
+		s := model3d.NewRect(model3d.XYZ(0, 0, 0), model3d.XYZ(1, 1.5, 1))
+		res := guardPanic(func() string {
+			got := model3d.MarchingCubesConj(s, 0.25, 0, ts...)
+			joined := model3d.JoinedTransform(ts)
+			want := model3d.MarchingCubesSearch(model3d.TransformSolid(joined, s), 0.25, 0).Transform(joined.Inverse())
+			key := func(m *model3d.Mesh) map[model3d.Triangle]int {
+				r := map[model3d.Triangle]int{}
+				m.Iterate(func(t *model3d.Triangle) { r[*t]++ })
+				return r
+			}
+			a, b := key(got), key(want)
+			if len(a) != len(b) || len(a) == 0 {
+				return fmt.Sprintf("triangle sets differ in size: %d vs %d", len(a), len(b))
+			}
+			for k, v := range a {
+				if b[k] != v {
+					return "triangle sets differ"
+				}
+			}
+			// every vertex mapped forward again must lie on the lattice-meshed transformed solid's bounds
+			min, max := joined.ApplyBounds(s.Min(), s.Max())
+			bad := ""
+			got.Iterate(func(t *model3d.Triangle) {
+				for _, p := range t {
+					q := joined.Apply(p)
+					if q.Min(min.AddScalar(-0.26)) != min.AddScalar(-0.26) || q.Max(max.AddScalar(0.26)) != max.AddScalar(0.26) {
+						bad = "vertex outside the transformed bounds"
+					}
+				}
+			})
+			return bad
+		})
+		c.Stat("conj3.cases", 1)
+		if res != "" {
+			c.PropFail("prop:c05/marching_cubes_conj", fmt.Sprintf("xforms=[%s] %s", desc, res))
+		}
+	}
+}
+
+// runSmart: toolbox3d.SmartSqueeze.Transform without pinches must be the piecewise-linear map of
+// the axis whose slope is SqueezeRatio on every squeezable cell and 1 on every unsqueezable one
+// (ranges may overlap, be unsorted, or stick out of the bounds), and must invert exactly.
+// Breakpoints are multiples of 1/4, cells 1/8 wide, the ratio a power of two: all arithmetic exact.
+// Evaluated directly on the implementation (the breakpoint loop is not modelled in Lean).
+func runSmart(c *hlib.Ctx) {
+	for i := 0; i < c.N/4+5; i++ {
+		axis := c.Rng.Intn(3)
+		ratio := math.Ldexp(1, -(c.Rng.Intn(3) + 1))
+		ss := toolbox3d.NewSmartSqueeze(toolbox3d.Axis(axis), ratio, 0, 0)
+		lo := float64(c.Rng.Intn(9)-4) / 4
+		hi := lo + float64(c.Rng.Intn(24)+1)/4
+		var ranges [][2]float64
+		for n := c.Rng.Intn(4); n > 0; n-- {
+			a := lo + float64(c.Rng.Intn(28)-2)/4
+			b := a + float64(c.Rng.Intn(8)+1)/4
+			ss.AddUnsqueezable(a, b)
+			ranges = append(ranges, [2]float64{a, b})
+		}
+		c.Stat(fmt.Sprintf("smart.ranges%d", len(ranges)), 1)
+		var minA, maxA [3]float64
+		minA[axis], maxA[axis] = lo, hi
+		maxA[(axis+1)%3], maxA[(axis+2)%3] = 1, 1
+		bounds := model3d.NewRect(model3d.NewCoord3DArray(minA), model3d.NewCoord3DArray(maxA))
+		res := guardPanic(func() string {
+			t := ss.Transform(bounds)
+			inv := t.Inverse()
+			at := func(x float64) float64 {
+				var arr [3]float64
+				arr[axis] = x
+				arr[(axis+1)%3] = 0.5
+				return t.Apply(model3d.NewCoord3DArray(arr)).Array()[axis]
+			}
+			for x := lo - 0.5; x < hi+0.5; x += 0.125 {
+				want := 0.125
+				if x >= lo && x+0.125 <= hi {
+					want = 0.125 * ratio
+					for _, r := range ranges {
+						if x >= r[0] && x+0.125 <= r[1] {
+							want = 0.125
+						}
+					}
+				}
+				if got := at(x+0.125) - at(x); got != want {
+					return fmt.Sprintf("cell [%v,%v]: image length %v, want %v", x, x+0.125, got, want)
+				}
+				var arr [3]float64
+				arr[axis] = x
+				p := model3d.NewCoord3DArray(arr)
+				if q := inv.Apply(t.Apply(p)); q != p {
+					return fmt.Sprintf("Inverse(Apply(%v)) = %v", p, q)
+				}
+				if q := t.Apply(inv.Apply(p)); q != p {
+					return fmt.Sprintf("Apply(Inverse(%v)) = %v", p, q)
+				}
+			}
+			if at(lo-0.5) != lo-0.5 {
+				return "points below the bounds moved"
+			}
+			return ""
+		})
+		if res != "" {
+			c.PropFail("prop:c05/smart_squeeze_piecewise_linear",
+				fmt.Sprintf("axis=%d ratio=%v bounds=[%v,%v] unsqueezable=%v: %s", axis, ratio, lo, hi, ranges, res))
+		}
+	}
+}
